@@ -1,11 +1,21 @@
 from __future__ import annotations
 
+from hashlib import blake2b
 from typing import TYPE_CHECKING
 
 from claripy.errors import ClaripyOperationError
 
 if TYPE_CHECKING:
     import claripy
+
+
+def _exact_hash(*fields) -> int:
+    """
+    A hash of the exact field values. Python's hash() of integers collides systematically (hash(-1) == hash(-2),
+    hash(x) == hash(x + 2**61 - 1)), and AST hash-consing identifies an annotation by its hash, so annotations that
+    carry integers must not hash them with hash().
+    """
+    return int.from_bytes(blake2b(repr(fields).encode(), digest_size=8).digest(), "little", signed=True)
 
 
 class Annotation:
@@ -92,7 +102,7 @@ class StridedIntervalAnnotation(SimplificationAvoidanceAnnotation):
         self.upper_bound = upper_bound
 
     def __hash__(self):
-        return hash((self.stride, self.lower_bound, self.upper_bound))
+        return _exact_hash("StridedIntervalAnnotation", self.stride, self.lower_bound, self.upper_bound)
 
     def __eq__(self, other):
         return (
@@ -121,7 +131,7 @@ class RegionAnnotation(SimplificationAvoidanceAnnotation):
     #
 
     def __hash__(self):
-        return hash((self.region_id, self.region_base_addr))
+        return _exact_hash("RegionAnnotation", self.region_id, self.region_base_addr)
 
     def __repr__(self):
         return f"<RegionAnnotation {self.region_id}@{self.region_base_addr:#08x}>"
